@@ -339,7 +339,7 @@ def hyp_shard(rec, shard):
         rec.hyp(strat, n, seed_offset=k)
     elif block == 'meta':
         txt = st.text(st.one_of(st.characters(min_codepoint=32, max_codepoint=126),
-                                st.sampled_from(['"', "'", '\\', '\n', '\t', 'é', 'ÿ', '\x00', '☃', '\U0001F3B5'])),
+                                st.sampled_from(['"', "'", '\\', '\n', '\t', 'é', 'ÿ', '\x00', '☃', '\U0001F3B5', '{', '}', '%'])),
                       max_size=20)
         strat = st.fixed_dictionaries({
             'kind': st.just('msg'),
